@@ -11,11 +11,13 @@ RUN_IMPORT = "Reactive.OwnerRun"
 READY = True
 
 RULE = ("cases drawn from one PRNG (VERIF_SEED): a random scope program (root body of statements: new signal, new stored "
-        "value, on_cleanup, provide_context(ty, v), use_context(ty), child owner {body}, effect {body}, memo {body}; nesting "
+        "value, on_cleanup, provide_context(ty, v), use_context(ty), child owner {body}, Effect::new {body}, "
+        "Effect::new_isomorphic {body}, Effect::watch {body as dependency fn}, RenderEffect {body}, ImmediateEffect {body}, memo {body}; nesting "
         "depth <= 3) run under a fresh root Owner, followed by a history of operations chosen against a Python simulation "
         "of the live entities: re-run / cleanup / drop-handle of any user scope at any depth, notify effect, notify memo, "
-        "read memo, poll one effect task, run tasks until idle in a chosen order, allocate n values under a scope after "
-        "disposals, dispose a value / memo / effect handle, pause / resume a scope, use_context at a scope; 7 % of the "
+        "read memo, poll one effect task, run tasks until idle in a chosen order, notify an immediate effect (re-runs "
+        "synchronously), allocate n values under a scope after disposals, dispose a value / memo / effect handle, drop a "
+        "render-effect / immediate-effect handle, pause / resume a scope, use_context at a scope; 7 % of the "
         "targets are stale or out of range on purpose. Notifications are left pending across disposals (a notified, "
         "not-yet-polled effect whose scope dies). A case is non-trivial when at least one release (re-run, cleanup, drop, "
         "dispose of memo) hits a scope that owns a nested scope and at least one cleanup runs; distinct = distinct case hash.")
@@ -23,11 +25,13 @@ TRUSTED = [
     "Coq 8.16.1 kernel (coqc); no axioms",
     "extraction to OCaml with ExtrOcamlBasic only, ocamlfind ocamlopt 4.13.1, extract/driver.ml sexp I/O",
     "harness/rx2 (Rust): src/exec.rs executor (tasks polled only on request), src/c08.rs interpreting the statement language "
-    "with the real Owner / on_cleanup / provide_context / use_context / RwSignal / StoredValue / Effect / Memo / ArcTrigger API; "
+    "with the real Owner / on_cleanup / provide_context / use_context / RwSignal / StoredValue / Effect::{new, new_isomorphic, "
+    "watch} / RenderEffect / ImmediateEffect / Memo / ArcTrigger API; "
     "slot keys are read from the handles' Debug rendering (NodeId(<idx>v<version>)) and canonicalised (index by first "
     "appearance, version relative to the first one seen), the arena length through the verif-hook verif_arena_len()",
     "modelled, not verified: slotmap::SlotMap (LIFO free list, version bump on removal, key = (index, version)); "
-    "Arc/Weak reference counting of Owner (one strong holder per owner: the harness, the effect's task, or the memo); "
+    "Arc/Weak reference counting of Owner (one strong holder per owner: the harness, the effect's task, the memo, or the "
+    "ImmediateEffect's inner state, i.e. its handle); a RenderEffect has no arena entry and lives as long as its handle; "
     "the effect's notification path (ArcTrigger -> EffectInner::mark_dirty -> channel flag -> waker) as three flags; "
     "memo dirtiness as one flag",
 ]
@@ -61,7 +65,7 @@ class Sim:
     """who created what, and what a release must therefore do"""
 
     def __init__(self, body):
-        self.scopes, self.handles, self.effects, self.memos = [], [], [], []
+        self.scopes, self.handles, self.effects, self.memos, self.imms = [], [], [], [], []
         self.ncid = 0
         self.log = []          # entries of the current op
         self.rel = []          # (cid, path) released in the current op, in order
@@ -98,10 +102,25 @@ class Sim:
             elif t == 5:
                 ch = self.new_scope(sc, "user", st[1])
                 self.run_body(ch, st[1])
-            elif t == 6:
+            elif t == 8:
+                # render effect: not owned by the arena, runs at once; its task is numbered after
+                # the tasks of the effects its body creates
+                own = self.new_scope(sc, "effect", st[1])
+                self.log.append(("rinit", own.sid))
+                self.run_body(own, st[1])
+                e = dict(eid=len(self.effects), scope=own, alive=True, set=False, dirty=False, first=False,
+                         woken=True, done=False, body=st[1], render=True)
+                self.effects.append(e)
+            elif t == 11:
+                own = self.new_scope(sc, "imm", st[1])
+                m = dict(iid=len(self.imms), scope=own, held=True, body=st[1])
+                self.imms.append(m)
+                self.log.append(("imm", m["iid"]))
+                self.run_body(own, st[1])
+            elif t in (6, 9, 10):
                 own = self.new_scope(sc, "effect", st[1])
                 e = dict(eid=len(self.effects), scope=own, alive=True, set=True, dirty=True, first=True, woken=True,
-                         done=False, body=st[1])
+                         done=False, body=st[1], render=False)
                 self.effects.append(e)
                 if sc.alive:
                     sc.vals.append(("e", e))
@@ -263,13 +282,31 @@ class Sim:
                 self.remove("m", self.memos[a], ())
         elif t == 24:
             if a < len(self.effects):
-                self.remove("e", self.effects[a], ())
+                self.remove("e", self.effects[a], ())      # arena entry removed / render handle dropped
+        elif t == 26:
+            if a < len(self.imms):
+                m = self.imms[a]
+                if m["held"] and not m["scope"].paused:
+                    self.release(m["scope"], False, ())
+                    self.log.append(("imm", a))
+                    self.run_body(m["scope"], m["body"])
+        elif t == 27:
+            if a < len(self.imms):
+                m = self.imms[a]
+                if m["held"]:
+                    m["held"] = False
+                    self.release(m["scope"], True, ())
 
     def finish(self):
         for s in list(self.scopes):
             if s.holder == "user" and s.held and s.alive:
                 s.held = False
                 self.release(s, True, ())
+        for e in self.effects:
+            if e["render"]:
+                self.remove("e", e, ())
+        for i in range(len(self.imms)):
+            self.step([27, i])
         self.run_all([])
 
     def take(self):
@@ -297,8 +334,8 @@ def gen_body(rng, depth, budget, ctxy=False):
                 out.append([2])
             elif r < 0.85:
                 out.append([5, gen_body(rng, depth + 1, budget, True)])
-            elif r < 0.95:
-                out.append([6, gen_body(rng, depth + 1, budget, True)])
+            elif r < 0.92:
+                out.append([rng.choice([6, 8, 11]), gen_body(rng, depth + 1, budget, True)])
             else:
                 out.append([7, gen_body(rng, depth + 1, budget, True)])
             continue
@@ -314,10 +351,14 @@ def gen_body(rng, depth, budget, ctxy=False):
             out.append([4, rng.randint(0, 2)])
         elif depth >= 3:
             out.append([2])
-        elif r < 0.76:
+        elif r < 0.73:
             out.append([5, gen_body(rng, depth + 1, budget)])
-        elif r < 0.90:
-            out.append([6, gen_body(rng, depth + 1, budget)])
+        elif r < 0.81:
+            out.append([rng.choice([6, 6, 9, 10]), gen_body(rng, depth + 1, budget)])
+        elif r < 0.89:
+            out.append([8, gen_body(rng, depth + 1, budget)])
+        elif r < 0.95:
+            out.append([11, gen_body(rng, depth + 1, budget)])
         else:
             out.append([7, gen_body(rng, depth + 1, budget)])
     return out
@@ -354,7 +395,8 @@ def gen_case(rng):
         elif r < 0.30:
             op = [12, pick_user()]
         elif r < 0.42:
-            op = [13, pick(len(sim.effects))]
+            rend = [e["eid"] for e in sim.effects if e["render"] and e["alive"]]
+            op = [13, rng.choice(rend)] if (rend and rng.random() < 0.5) else [13, pick(len(sim.effects))]
         elif r < 0.47:
             op = [14, pick(len(sim.memos))]
         elif r < 0.57:
@@ -373,10 +415,14 @@ def gen_case(rng):
             op = [21, pick_user()]
         elif r < 0.97:
             op = [22, pick_user(), rng.randint(0, 2)]
-        elif r < 0.985:
+        elif r < 0.975:
             op = [23, pick(len(sim.memos))]
-        else:
+        elif r < 0.99:
             op = [24, pick(len(sim.effects))]
+        else:
+            op = [27, pick(len(sim.imms))]
+        if sim.imms and rng.random() < 0.12:
+            op = [26, pick(len(sim.imms))]
         ops.append(op)
         sim.step(op)
         if len(sim.scopes) > 120 or len(sim.handles) > 150:
@@ -422,9 +468,20 @@ def check_point(j, sim, o, disposed_effects, seen_cids):
     for e in ilog:
         if e[0] == 2 and e[1] in disposed_effects:
             return "op %s: effect %d runs after its scope was released" % (j, e[1])
+    for e in ilog:
+        if e[0] == 7 and ("imm", e[1]) in disposed_effects:
+            return "op %s: immediate effect %d runs after its handle was dropped" % (j, e[1])
     for e in sim.effects:
         if not e["alive"]:
             disposed_effects.add(e["eid"])
+    for m in sim.imms:
+        if not m["held"]:
+            disposed_effects.add(("imm", m["iid"]))
+    # which scopes (re-)ran: the runs the implementation reports are the ones ownership predicts
+    runs_i = sorted(tuple(e[:2]) for e in ilog if e[0] in (6, 7))
+    runs_s = sorted((6, e[1]) if e[0] == "rinit" else (7, e[1]) for e in log if e[0] in ("rinit", "imm"))
+    if runs_i != runs_s:
+        return "op %s: synchronous effect runs %r, expected %r" % (j, runs_i, runs_s)
     reads_i = [(e[1], bool(e[2])) for e in ilog if e[0] == 5]
     reads_s = [(e[1], e[2]) for e in log if e[0] == "read"]
     if reads_i != reads_s:
@@ -467,7 +524,7 @@ def nontrivial(item, model):
     body, ops = item["case"]
 
     def nested(b):
-        return any(st[0] in (5, 6, 7) for st in b)
+        return any(st[0] in (5, 6, 7, 8, 9, 10, 11) for st in b)
     if not nested(body):
         return False
     if not any(op[0] in (10, 11, 12, 23) for op in ops):
@@ -485,7 +542,7 @@ def valid_case(item):
             if d > 4 or not isinstance(b, list):
                 return False
             for st in b:
-                if not isinstance(st, list) or not st or st[0] not in range(8):
+                if not isinstance(st, list) or not st or st[0] not in range(12):
                     return False
                 if st[0] == 3 and not (len(st) == 3 and 0 <= st[1] <= 2 and isinstance(st[2], int)):
                     return False
@@ -493,12 +550,12 @@ def valid_case(item):
                     return False
                 if st[0] in (0, 1, 2) and len(st) != 1:
                     return False
-                if st[0] in (5, 6, 7) and not (len(st) == 2 and ok_body(st[1], d + 1)):
+                if st[0] in (5, 6, 7, 8, 9, 10, 11) and not (len(st) == 2 and ok_body(st[1], d + 1)):
                     return False
             return True
         if not ok_body(body, 0):
             return False
-        ar = {10: 2, 11: 2, 12: 2, 13: 2, 14: 2, 15: 2, 16: 2, 17: 2, 18: 3, 19: 2, 20: 2, 21: 2, 22: 3, 23: 2, 24: 2}
+        ar = {10: 2, 11: 2, 12: 2, 13: 2, 14: 2, 15: 2, 16: 2, 17: 2, 18: 3, 19: 2, 20: 2, 21: 2, 22: 3, 23: 2, 24: 2, 26: 2, 27: 2}
         for op in ops:
             if not isinstance(op, list) or not op or op[0] not in ar or len(op) != ar[op[0]]:
                 return False
@@ -516,16 +573,17 @@ def valid_case(item):
         return False
 
 
-STN = {0: "signal", 1: "stored", 2: "on_cleanup", 3: "provide", 4: "use", 5: "child", 6: "effect", 7: "memo"}
+STN = {0: "signal", 1: "stored", 2: "on_cleanup", 3: "provide", 4: "use", 5: "child", 6: "effect", 7: "memo",
+       8: "render-effect", 9: "isomorphic-effect", 10: "watch", 11: "immediate-effect"}
 OPN = {10: "rerun", 11: "cleanup", 12: "drop", 13: "notify-effect", 14: "notify-memo", 15: "read-memo", 16: "poll",
        17: "run-until-idle", 18: "alloc", 19: "dispose-value", 20: "pause", 21: "resume", 22: "use-at",
-       23: "dispose-memo", 24: "dispose-effect"}
+       23: "dispose-memo", 24: "dispose-effect/drop-render-handle", 26: "notify-immediate", 27: "drop-immediate"}
 
 
 def show_body(b):
     out = []
     for st in b:
-        if st[0] in (5, 6, 7):
+        if st[0] in (5, 6, 7, 8, 9, 10, 11):
             out.append("%s{%s}" % (STN[st[0]], show_body(st[1])))
         elif len(st) > 1:
             out.append("%s%s" % (STN[st[0]], tuple(st[1:])))
@@ -550,7 +608,7 @@ def coverage_extra(results):
         body, ops = r["item"]["case"]
         sim = Sim(body)
         for op in ops:
-            releases += op[0] in (10, 11, 12, 23, 24)
+            releases += op[0] in (10, 11, 12, 23, 24, 27)
             before = [e["eid"] for e in sim.effects if e["alive"] and e["set"] and not e["done"]]
             sim.step(op)
             pend += sum(1 for i in before if not sim.effects[i]["alive"])
